@@ -49,6 +49,17 @@ Proof.
   destruct (x_skip (f_xml f)); exact Hz.
 Qed.
 
+(* one level of wf, without unfolding deeper levels *)
+Lemma wf_struct_inv : forall n ty d v,
+  wf sch (S n) ty v = true -> rk sch ty = RStruct d ->
+  exists vs, v = VStruct vs
+             /\ fields_all (wf sch n) (zero_like sch n) (struct_fields d) vs = true
+             /\ wf_extra sch d v = true.
+Proof.
+  intros n ty d v H Hk. cbn [wf] in H. rewrite Hk in H. destruct v as [| | | | | | |vs|]; try discriminate.
+  apply andb_true_iff in H. destruct H as [H1 H2]. exists vs. repeat split; assumption.
+Qed.
+
 Lemma zero_struct : forall k ty d,
   rk sch ty = RStruct d -> zero sch (S k) ty = VStruct (map (fun f => zero sch k (f_type f)) (struct_fields d)).
 Proof. intros k ty d Hk. cbn [zero]. rewrite Hk. reflexivity. Qed.
@@ -116,6 +127,242 @@ Proof.
       cbn [wf] in Hwf. rewrite Hk in Hwf. destruct v as [| | | | | | |vs|]; try discriminate.
       apply andb_true_iff in Hwf. destruct Hwf as [Hwf _]. exists vs. split; [reflexivity | exact Hwf]. }
     destruct Hw as [vs [_ Hw]]. exact (zero_fields_like 15 15 _ vs (le_n _) Hw).
+Qed.
+
+(* ---------- Change (osmChange) ---------- *)
+
+Definition blk_ok (f : field) (go nm : string) : bool :=
+  String.eqb (f_name f) go && is_elem f && field_supported f
+  && match x_parents (f_xml f) with [] => true | _ => false end
+  && String.eqb (eff_name sch f) nm
+  && gotype_eqb (f_type f) (TPtr (TNamed "OSM")).
+
+Lemma blk_ok_inv : forall f go nm, blk_ok f go nm = true ->
+  f_name f = go /\ is_elem f = true /\ field_supported f = true /\ x_parents (f_xml f) = []
+  /\ eff_name sch f = nm /\ f_type f = TPtr (TNamed "OSM").
+Proof.
+  intros f go nm H. unfold blk_ok in H. do 5 (apply andb_true_iff in H; destruct H as [H ?]).
+  apply String.eqb_eq in H. destruct (x_parents (f_xml f)); try discriminate.
+  repeat split; try assumption; [apply String.eqb_eq | apply gotype_eqb_eq]; assumption.
+Qed.
+
+Section Blocks.
+Variable c : nat.
+Variable dO : typedef.
+Hypothesis Hc : (S (S (S c)) <= FUEL)%nat.
+Hypothesis HlO : lookup_type sch "OSM" = Some dO.
+Hypothesis HtsO : osm_top_static dO = true.
+Hypothesis HstO : osm_static sch c dO = true.
+
+(* one create/modify/delete (or old/new) block field: *OSM written by marshalInnerChange *)
+Lemma block_field : forall f go nm v,
+  blk_ok f go nm = true ->
+  wf sch (S (S c)) (f_type f) v = true ->
+  (match v with VPtr (Some o) => header_empty dO o | _ => true end) = true ->
+  exists es,
+    inner_change sch (marshal sch (S (S c))) nm v = Ok es
+    /\ own_names sch f es
+    /\ (forall b, zero_like sch (S (S c)) (f_type f) b = true ->
+                  absorb_kids sch (unmarshal sch FUEL (S (S c))) f b es = Ok v).
+Proof.
+  intros f go nm v Hb Hwf Hhe. destruct (blk_ok_inv _ _ _ Hb) as (Hn & He & Hs & Hp & Hen & Hty).
+  destruct (osm_top_inv dO HlO HtsO) as (HkO & HnameO & HmhO & HuhO).
+  rewrite Hty in *. cbn [wf] in Hwf.
+  assert (Hkp : rk sch (TPtr (TNamed "OSM")) = RPtr (TNamed "OSM")) by reflexivity.
+  rewrite Hkp in Hwf. destruct v as [| | | | |o| | |]; try discriminate.
+  assert (Hbase : forall b, zero_like sch (S (S c)) (TPtr (TNamed "OSM")) b = true -> b = VPtr None).
+  { intros b Hz. cbn [zero_like] in Hz. rewrite Hkp in Hz. destruct b as [| | | | |ob| | |]; try discriminate.
+    destruct ob; [discriminate | reflexivity]. }
+  destruct o as [ov|].
+  - cbn [wf] in Hwf. rewrite HkO in Hwf. destruct ov as [| | | | | | |ovs|]; try discriminate.
+    apply andb_true_iff in Hwf. destruct Hwf as [Hwf _].
+    assert (Hc0 : (c <= FUEL)%nat) by lia.
+    destruct (osm_block sch c dO ovs Hc0 HstO Hwf) as [al [kids [Hal [Hkids [Hnil Hdec]]]]].
+    rewrite (Hnil Hhe) in *. clear Hnil.
+    exists [Elem nm [] kids no_text]. split; [|split].
+    + unfold inner_change. rewrite HlO. rewrite (Hkids (S (S c)) ltac:(lia)). reflexivity.
+    + unfold own_names, elem_key. rewrite He, Hp, Hen. constructor; [reflexivity | constructor].
+    + intros b Hz. rewrite (Hbase b Hz). cbn [absorb_kids]. unfold key_hit, elem_key, hit_action.
+      rewrite He, Hp, Hen. cbn [xname]. rewrite String.eqb_refl. cbn [andb]. rewrite Hty.
+      rewrite unmarshal_S. rewrite (us_ptr_nil sch _ _ _ _ _ Hkp). rewrite unmarshal_S.
+      rewrite (us_struct sch _ _ _ dO _ _ HkO HuhO).
+      change (zero sch FUEL (TNamed "OSM")) with (zero sch (S 15) (TNamed "OSM")).
+      rewrite (zero_struct 15 _ dO HkO).
+      rewrite (Hdec c _ nm no_text (le_n _) (zero_fields_like c 15 _ ovs ltac:(unfold FUEL in Hc; lia) Hwf)).
+      reflexivity.
+  - exists []. split; [|split].
+    + reflexivity.
+    + unfold own_names. rewrite He. constructor.
+    + intros b Hz. rewrite (Hbase b Hz). reflexivity.
+Qed.
+
+End Blocks.
+
+Definition change_static (d : typedef) : bool :=
+  is_ustruct d && String.eqb (t_name d) "Change"
+  && match marshal_hook sch (TNamed "Change") with Some _ => true | None => false end
+  && match unmarshal_hook sch (TNamed "Change") with Some _ => false | None => true end
+  && String.eqb (xmlname_tag d) ""
+  && all_supported (struct_fields d) && parents_ok (struct_fields d)
+  && nodup_strb (attr_names sch (struct_fields d)) && nodup_strb (elem_keys sch (struct_fields d))
+  && match struct_fields d with
+     | [f1; f2; f3; f4; f5; f6; f7; f8] =>
+         hdr_ok sch f1 "Version" "version" && hdr_ok sch f2 "Generator" "generator"
+         && hdr_ok sch f3 "Copyright" "copyright" && hdr_ok sch f4 "Attribution" "attribution"
+         && hdr_ok sch f5 "License" "license"
+         && blk_ok f6 "Create" "create" && blk_ok f7 "Modify" "modify" && blk_ok f8 "Delete" "delete"
+     | _ => false
+     end.
+
+Lemma roundtrip_change_k : forall c dC dO v,
+  (S (S (S c)) <= FUEL)%nat ->
+  lookup_type sch "Change" = Some dC -> change_static dC = true ->
+  lookup_type sch "OSM" = Some dO -> osm_top_static dO = true -> osm_static sch c dO = true ->
+  wf sch (S (S (S c))) (TNamed "Change") v = true ->
+  exists e, marshal sch (S (S (S c))) (TNamed "Change") v None None = Ok [e] /\ xname e = "osmChange"
+            /\ forall bs, fields_all (zero_like sch (S (S c))) (zero_like sch (S (S c))) (struct_fields dC) bs = true ->
+                          unmarshal sch FUEL (S (S (S c))) (TNamed "Change") (VStruct bs) e = Ok v.
+Proof.
+  intros c dC dO v Hc HlC Hst HlO HtsO HstO Hwf. unfold change_static in Hst.
+  apply andb_true_iff in Hst; destruct Hst as [Hst Hshape].
+  do 8 (apply andb_true_iff in Hst; destruct Hst as [Hst ?]).
+  match goal with E : String.eqb (t_name dC) "Change" = true |- _ => apply String.eqb_eq in E; rename E into Hname end.
+  assert (Hnd : named_def sch (TNamed "Change") = Some dC) by exact HlC.
+  pose proof (named_def_rk sch _ dC Hnd Hst) as Hk.
+  assert (Hmh : marshal_hook sch (TNamed "Change") = Some dC).
+  { destruct (marshal_hook sch (TNamed "Change")) as [d0|] eqn:E; [|discriminate].
+    pose proof (marshal_hook_def sch _ _ E). congruence. }
+  assert (Huh : unmarshal_hook sch (TNamed "Change") = None).
+  { destruct (unmarshal_hook sch (TNamed "Change")); [discriminate | reflexivity]. }
+  destruct (wf_struct_inv _ _ dC v Hwf Hk) as [vs [-> [Hwf' Hex]]]. clear Hwf. rename Hwf' into Hwf.
+  destruct (struct_fields dC) as [|f1 [|f2 [|f3 [|f4 [|f5 [|f6 [|f7 [|f8 [|f9 fs]]]]]]]]] eqn:Hfs; try discriminate.
+  destruct vs as [|v1 [|v2 [|v3 [|v4 [|v5 [|v6 [|v7 [|v8 [|v9 vs]]]]]]]]];
+    try (cbn [fields_all] in Hwf; repeat (apply andb_true_iff in Hwf; destruct Hwf as [? Hwf]); discriminate).
+  do 7 (apply andb_true_iff in Hshape; destruct Hshape as [Hshape ?]).
+  repeat match goal with H : hdr_ok sch ?f ?a ?b = true |- _ =>
+    let Hh := fresh "Hh" in assert (Hh : keep (hdr_ok sch f a b = true)) by exact H; apply hdr_ok_inv in H;
+    let a := fresh "Hn" in let b := fresh "Ha" in let c := fresh "Hs" in let e := fresh "Ho" in
+    let g := fresh "He" in let h := fresh "Hk" in destruct H as (a & b & c & e & g & h) end.
+  repeat match goal with H : blk_ok ?f ?a ?b = true |- _ =>
+    let Hh := fresh "Hb" in assert (Hh : keep (blk_ok f a b = true)) by exact H; apply blk_ok_inv in H;
+    let a := fresh "Hn" in let b := fresh "Hel" in let c := fresh "Hs" in let e := fresh "Hp" in
+    let g := fresh "He" in let h := fresh "Hty" in destruct H as (a & b & c & e & g & h) end.
+  unfold keep in *.
+  cbn [fields_all] in Hwf. repeat (apply andb_true_iff in Hwf; destruct Hwf as [? Hwf]).
+  repeat match goal with H : is_attr ?f = true |- _ =>
+    match goal with
+    | K : x_skip (f_xml f) = false |- _ => fail 1
+    | _ => pose proof (attr_not_skip f H)
+    end end.
+  repeat match goal with H : is_elem ?f = true |- _ =>
+    match goal with
+    | K : is_attr f = false |- _ => fail 1
+    | _ => destruct (elem_not_attr f H)
+    end end.
+  repeat match goal with K : x_skip (f_xml ?f) = false, H : (if x_skip (f_xml ?f) then _ else _) = true |- _ => apply (if_false_hyp _ _ _ K) in H end.
+  (* the wf hypotheses of the header fields, kept for the attribute phase *)
+  assert (Hattr : forall bs, fields_all (zero_like sch (S (S c))) (zero_like sch (S (S c))) [f1; f2; f3; f4; f5; f6; f7; f8] bs = true ->
+            Forall3 (attr_field_rt sch) [f1; f2; f3; f4; f5; f6; f7; f8] [v1; v2; v3; v4; v5; v6; v7; v8] bs).
+  { intros bs Hz. destruct bs as [|b1 [|b2 [|b3 [|b4 [|b5 [|b6 [|b7 [|b8 [|b9 bs]]]]]]]]];
+      try (cbn [fields_all] in Hz; repeat (apply andb_true_iff in Hz; destruct Hz as [? Hz]); discriminate).
+    cbn [fields_all] in Hz. repeat (apply andb_true_iff in Hz; destruct Hz as [? Hz]).
+    repeat match goal with K : x_skip (f_xml ?f) = false, H : (if x_skip (f_xml ?f) then _ else _) = true |- _ => apply (if_false_hyp _ _ _ K) in H end.
+    repeat constructor;
+      try (intros Hx; congruence);
+      (apply (attr_rt_of_wf sch (S (S c))); [unfold attr_ty_ok; match goal with Hk : rk sch (f_type _) = RString |- _ => rewrite Hk end; reflexivity | assumption | assumption]). }
+  repeat match goal with Hk : rk sch (f_type ?f) = RString, W : wf sch (S (S c)) (f_type ?f) ?v = true |- _ =>
+    let s := fresh "str" in destruct (wf_string sch _ _ _ W Hk) as [s ->]; clear W end.
+  match goal with |- context[VStruct [VStr ?a; VStr ?b; VStr ?c0; VStr ?e; VStr ?g; _; _; _]] =>
+    rename a into s; rename b into s0; rename c0 into s1; rename e into s2; rename g into s3 end.
+  set (al := opt_attr "version" s ++ opt_attr "generator" s0 ++ opt_attr "copyright" s1
+             ++ opt_attr "attribution" s2 ++ opt_attr "license" s3 ++ []).
+  assert (HA : marshal_attrs sch [f1; f2; f3; f4; f5; f6; f7; f8]
+                 [VStr s; VStr s0; VStr s1; VStr s2; VStr s3; v6; v7; v8] = Ok al).
+  { rewrite (ma_hdr sch f1 "Version" "version"), (ma_hdr sch f2 "Generator" "generator"),
+            (ma_hdr sch f3 "Copyright" "copyright"), (ma_hdr sch f4 "Attribution" "attribution"),
+            (ma_hdr sch f5 "License" "license") by assumption.
+    rewrite !ma_nonattr by assumption. reflexivity. }
+  (* the three blocks *)
+  unfold wf_extra in Hex. rewrite Hname in Hex. cbn [String.eqb Ascii.eqb Bool.eqb] in Hex.
+  rewrite Hfs in Hex. unfold block_ok in Hex. cbn [fget_go] in Hex.
+  rewrite ?Hn, ?Hn0, ?Hn1, ?Hn2, ?Hn3, ?Hn4, ?Hn5, ?Hn6 in Hex.
+  cbn [String.eqb Ascii.eqb Bool.eqb andb] in Hex. rewrite HlO in Hex.
+  apply andb_true_iff in Hex. destruct Hex as [Hex Hex3]. apply andb_true_iff in Hex. destruct Hex as [Hex1 Hex2].
+  assert (Hblk : forall f go nm v, blk_ok f go nm = true -> wf sch (S (S c)) (f_type f) v = true ->
+            match v with VPtr None => true | VPtr (Some o) => header_empty dO o | _ => false end = true ->
+            exists es, inner_change sch (marshal sch (S (S c))) nm v = Ok es /\ own_names sch f es
+                       /\ (forall b, zero_like sch (S (S c)) (f_type f) b = true ->
+                                     absorb_kids sch (unmarshal sch FUEL (S (S c))) f b es = Ok v)).
+  { intros f go nm v Hbk Hw Hhd. apply (block_field c dO Hc HlO HtsO HstO f go nm v Hbk Hw).
+    destruct v as [| | | | |[o|]| | |]; try discriminate; [exact Hhd | reflexivity]. }
+  destruct (Hblk f6 "Create" "create" v6 ltac:(assumption) ltac:(assumption) Hex1) as [es1 [Hmm1 [Hown1 Hab1]]].
+  destruct (Hblk f7 "Modify" "modify" v7 ltac:(assumption) ltac:(assumption) Hex2) as [es2 [Hmm2 [Hown2 Hab2]]].
+  destruct (Hblk f8 "Delete" "delete" v8 ltac:(assumption) ltac:(assumption) Hex3) as [es3 [Hmm3 [Hown3 Hab3]]].
+  exists (Elem "osmChange" al (List.concat [[]; []; []; []; []; es1; es2; es3]) no_text).
+  split; [|split; [reflexivity|]].
+  - rewrite marshal_S.
+    rewrite (ms_hook sch _ (TNamed "Change") dC _ None None); [| rewrite Hk; reflexivity | reflexivity | exact Hmh].
+    unfold hook_marshal. rewrite Hname. cbn [String.eqb Ascii.eqb Bool.eqb]. unfold change_marshal.
+    assert (Hha : header_attrs dC (VStruct [VStr s; VStr s0; VStr s1; VStr s2; VStr s3; v6; v7; v8]) = Ok al).
+    { unfold header_attrs.
+      rewrite (str_attr_opt dC _ "Version" "version" f1 s), (str_attr_opt dC _ "Generator" "generator" f2 s0),
+              (str_attr_opt dC _ "Copyright" "copyright" f3 s1), (str_attr_opt dC _ "Attribution" "attribution" f4 s2),
+              (str_attr_opt dC _ "License" "license" f5 s3);
+        try (rewrite Hfs; cbn [fget_go]; rewrite ?Hn, ?Hn0, ?Hn1, ?Hn2, ?Hn3, ?Hn4, ?Hn5, ?Hn6; reflexivity).
+      cbn [rbind]. unfold al. rewrite app_nil_r. reflexivity. }
+    rewrite Hha. cbn [rbind]. unfold inner_change_field, fld. rewrite Hfs. cbn [fget_go].
+    rewrite ?Hn, ?Hn0, ?Hn1, ?Hn2, ?Hn3, ?Hn4, ?Hn5, ?Hn6.
+    cbn [String.eqb Ascii.eqb Bool.eqb andb rbind fst snd]. rewrite Hmm1. cbn [rbind]. rewrite Hmm2. cbn [rbind].
+    rewrite Hmm3. cbn [rbind List.concat app]. rewrite app_nil_r. reflexivity.
+  - intros bs Hz. rewrite unmarshal_S. rewrite (us_struct sch _ _ _ dC _ _ Hk Huh).
+    rewrite <- Hfs in HA. pose proof (Hattr bs Hz) as Hrt. rewrite <- Hfs in Hrt.
+    destruct bs as [|b1 [|b2 [|b3 [|b4 [|b5 [|b6 [|b7 [|b8 [|b9 bs]]]]]]]]];
+      try (cbn [fields_all] in Hz; repeat (apply andb_true_iff in Hz; destruct Hz as [? Hz]); discriminate).
+    cbn [fields_all] in Hz. repeat (apply andb_true_iff in Hz; destruct Hz as [? Hz]).
+    repeat match goal with K : x_skip (f_xml ?f) = false, H : (if x_skip (f_xml ?f) then _ else _) = true |- _ => apply (if_false_hyp _ _ _ K) in H end.
+    apply (assemble_struct sch _ dC _ _ al _ "osmChange" no_text); rewrite ?Hfs; try assumption.
+    + match goal with E : String.eqb (xmlname_tag dC) "" = true |- _ => rewrite E end. reflexivity.
+    + rewrite <- Hfs. exact HA.
+    + rewrite <- Hfs. exact Hrt.
+    + unfold after_attrs. cbn [combine map fst snd].
+      repeat match goal with E : is_attr ?f = _ |- context[is_attr ?f] => rewrite E end.
+      repeat constructor; cbn [fst snd]; try assumption;
+        try (unfold own_names; match goal with |- (if ?cnd then _ else _) => destruct cnd end; [constructor | reflexivity]);
+        try (intros Hx; congruence);
+        try (intros _; match goal with Hab : forall b, _ -> absorb_kids _ _ ?f b ?es = Ok ?v |- absorb_kids _ _ ?f _ ?es = Ok ?v => apply Hab; assumption end).
+    + reflexivity.
+    + reflexivity.
+    + unfold after_kids, after_attrs. cbn [combine map fst snd].
+      repeat match goal with E : is_attr ?f = _ |- context[is_attr ?f] => rewrite E end.
+      repeat match goal with E : is_elem ?f = _ |- context[is_elem ?f] => rewrite E end.
+      repeat match goal with |- context[if is_elem ?f then ?a else ?a] => destruct (is_elem f) end.
+      all: reflexivity.
+Qed.
+
+Lemma change_static_rk : forall dC,
+  lookup_type sch "Change" = Some dC -> change_static dC = true -> rk sch (TNamed "Change") = RStruct dC.
+Proof.
+  intros dC Hl H. unfold change_static in H. do 9 (apply andb_true_iff in H; destruct H as [H ?]).
+  apply named_def_rk; [exact Hl | exact H].
+Qed.
+
+Theorem roundtrip_change : forall dC dO v,
+  lookup_type sch "Change" = Some dC -> change_static dC = true ->
+  lookup_type sch "OSM" = Some dO -> osm_top_static dO = true -> osm_static sch 13 dO = true ->
+  wf sch FUEL (TNamed "Change") v = true ->
+  exists e, encode1 sch "Change" v = Ok e /\ decode sch "Change" e = Ok v /\ xname e = "osmChange".
+Proof.
+  intros dC dO v HlC HsC HlO HtO HsO Hwf.
+  assert (H16 : (S (S (S 13)) <= FUEL)%nat) by (unfold FUEL; repeat constructor).
+  destruct (roundtrip_change_k 13 dC dO v H16 HlC HsC HlO HtO HsO Hwf) as [e [He [Hn Hd]]].
+  exists e. split; [|split; [|exact Hn]].
+  - unfold encode1, encode. change FUEL with (S (S (S 13))). rewrite He. reflexivity.
+  - unfold decode. pose proof (change_static_rk dC HlC HsC) as Hk.
+    change (zero sch FUEL (TNamed "Change")) with (zero sch (S 15) (TNamed "Change")).
+    rewrite (zero_struct 15 _ dC Hk). change (unmarshal sch FUEL FUEL) with (unmarshal sch FUEL (S (S (S 13)))).
+    apply Hd. clear Hd He.
+    destruct (wf_struct_inv 15 _ dC v Hwf Hk) as [vs [_ [Hw _]]].
+    exact (zero_fields_like 15 15 _ vs (le_n _) Hw).
 Qed.
 
 End Containers.
